@@ -15,6 +15,8 @@ if ROUND == '6':
     MAP = {'A': 'I', 'B': 'J'}
 if ROUND == '7':
     MAP = {'A': 'K', 'B': 'L'}
+if ROUND == '8':
+    MAP = {'A': 'M', 'B': 'N'}
 for p in sys.argv[1:]:
     notes=open('/tmp/wt/%s/seeded/NOTES.md'%p).read()
     unconfirmed = []
